@@ -7,3 +7,7 @@ import ThunderProofs.Properties.C10
 #print axioms TM.Properties.C10.old_nil_depends_on_companions
 #print axioms TM.Properties.C10.call_batched_eq_alone
 #print axioms TM.Properties.C10.late_validation_fails_siblings
+#print axioms TM.Properties.C10.tester_agrees_with_database
+#print axioms TM.Properties.C10.old_out_of_range_wraps
+#print axioms TM.Properties.C10.old_large_float_lost
+#print axioms TM.Properties.C10.uint64_is_outside
